@@ -1,3 +1,6 @@
 import TFV.Properties.EA
+import TFV.Properties.Heap
 #print axioms TFV.EA.C01_best_is_max
 #print axioms TFV.EA.C01_final
+#print axioms TFV.Heap.C01_private_copy
+#print axioms TFV.Heap.C01_alias_counterexample
